@@ -7,8 +7,11 @@ EXTENDS Naturals, Sequences, FiniteSets, TLC, SequencesExt
 
 CONSTANTS NCalls,          \* concurrent calls on one client
           VarTrees,        \* the variables structures explored (see Trees below)
-          HeaderModes      \* how a call passes headers: "none" | "own" (fresh dict) | "own_ct" (fresh dict overriding
+          HeaderModes,     \* how a call passes headers: "none" | "own" (fresh dict) | "own_ct" (fresh dict overriding
                            \* Content-Type) | "shared" (a dict the caller re-uses for several calls)
+          Reuse,           \* BOOLEAN or {FALSE}: may a later call pass the very same variables OBJECT as call 1 (a retry)?
+          Deviations       \* {} as built; "in_place_nulling" = separate_files writes null into the containers it walks
+                           \* instead of rebuilding them (seeded change C11b): plain dicts below the top level are the caller's
 
 \* ---- part 1: variables trees ------------------------------------------------------------------------------
 \* leaves: "s" scalar, "n" None, "e" enum member, "d" datetime, "u1" / "u2" Upload objects (identity matters),
@@ -37,6 +40,12 @@ TopConvert(t) == <<"V">> \o [i \in 1..(Len(t) - 1) |-> IF t[i + 1][1] \in {"unse
 RECURSIVE Nulled(_)
 Nulled(t) == IF IsUpload(t) THEN Lf("n") ELSE IF IsLeaf(t) THEN t
              ELSE <<t[1]>> \o [i \in 1..(Len(t) - 1) |-> Nulled(t[i + 1])]
+\* what in-place nulling does to the CALLER's object: the top-level dict, lists directly in it and model dumps are fresh
+\* copies, every plain dict (and everything inside it) is the caller's own container
+RECURSIVE NulledPlain(_)
+NulledPlain(t) == IF IsLeaf(t) THEN t
+                  ELSE IF t[1] = "D" THEN Nulled(t)
+                  ELSE <<t[1]>> \o [i \in 1..(Len(t) - 1) |-> NulledPlain(t[i + 1])]
 \* all (path, upload) occurrences in depth-first order
 RECURSIVE Occ(_, _)
 Occ(path, t) ==
@@ -83,33 +92,40 @@ MultipartSpec(vars_) ==
 \* ---- part 2: calls as processes --------------------------------------------------------------------------
 Calls == 1..NCalls
 NoReq == [kind |-> "none", vars |-> <<>>, map |-> <<>>, files |-> <<>>, ctype |-> "-", extra |-> "-"]
-VARIABLES args,         \* per call: [vars, hdr]
+VARIABLES args,         \* per call: [vars, hdr, reuse]; reuse = the call passes the same variables object as call 1
+          callerVars,   \* per call: the caller's variables object as the caller sees it NOW (identity: Obj(c))
           pc,           \* per call: "start" | "processed" | "sent" | "done"
           local,        \* per call: what _process_variables returned (call-local state)
           wire,         \* per call: the request handed to httpx
           sharedHdr,    \* the caller's re-used headers dict: has the client written into it?
           outcome       \* per call: whose response the call returned (0 = still pending)
-vars == <<args, pc, local, wire, sharedHdr, outcome>>
+vars == <<args, callerVars, pc, local, wire, sharedHdr, outcome>>
+Obj(c) == IF args[c].reuse THEN 1 ELSE c
 
 Init ==
-  /\ args \in [Calls -> [vars : VarTrees, hdr : HeaderModes]]
+  /\ args \in {a \in [Calls -> [vars : VarTrees, hdr : HeaderModes, reuse : Reuse]] :
+                  ~a[1].reuse /\ \A c \in Calls : a[c].reuse => a[c].vars = a[1].vars}
+  /\ callerVars = [c \in Calls |-> args[c].vars]
   /\ pc = [c \in Calls |-> "start"] /\ local = [c \in Calls |-> NoReq] /\ wire = [c \in Calls |-> NoReq]
   /\ sharedHdr = "clean" /\ outcome = [c \in Calls |-> 0]
 
 \* processed_variables, files, files_map = self._process_variables(variables)
+\* (reads the object as it is NOW; as built nothing ever writes into it)
 Process(c) == /\ pc[c] = "start"
-              /\ local' = [local EXCEPT ![c] = Wire(args[c].vars, args[c].hdr)]
+              /\ local' = [local EXCEPT ![c] = Wire(callerVars[Obj(c)], args[c].hdr)]
+              /\ callerVars' = IF "in_place_nulling" \in Deviations
+                                THEN [callerVars EXCEPT ![Obj(c)] = NulledPlain(@)] ELSE callerVars
               /\ pc' = [pc EXCEPT ![c] = "processed"]
               /\ UNCHANGED <<args, wire, sharedHdr, outcome>>
 \* self.http_client.post(...): the request is built from call-local state only; the caller's dict is copied, not written
 Send(c) == /\ pc[c] = "processed"
            /\ wire' = [wire EXCEPT ![c] = local[c]]
            /\ pc' = [pc EXCEPT ![c] = "sent"]
-           /\ UNCHANGED <<args, local, sharedHdr, outcome>>
+           /\ UNCHANGED <<args, callerVars, local, sharedHdr, outcome>>
 Return(c) == /\ pc[c] = "sent"
              /\ outcome' = [outcome EXCEPT ![c] = c]
              /\ pc' = [pc EXCEPT ![c] = "done"]
-             /\ UNCHANGED <<args, local, wire, sharedHdr>>
+             /\ UNCHANGED <<args, callerVars, local, wire, sharedHdr>>
 Next == \E c \in Calls : Process(c) \/ Send(c) \/ Return(c)
 Spec == Init /\ [][Next]_vars
 
@@ -119,5 +135,6 @@ NoInterference == \A c \in Calls : wire[c] # NoReq => wire[c] = Wire(args[c].var
 OwnResponse == \A c \in Calls : outcome[c] # 0 => outcome[c] = c
 \* the client never writes into objects the caller owns
 CallerStateUntouched == sharedHdr = "clean"
+CallerVarsUntouched == \A c \in Calls : callerVars[c] = args[c].vars
 SpecHolds == \A c \in Calls : MultipartSpec(args[c].vars)
 =============================================================================
